@@ -246,7 +246,7 @@ CHECKS = {
               "(through json.dumps/loads) and from_json compared with the model for every class incl. configurators; oracle: "
               "leaves and bounds, evaluation on assignments, explicit ids kept, no id emitted for generated ones, defaults and "
               "default priorities on named ids."),
-        note="PARTIAL at the theorem level: for configurators with rules other than defaulted choices over items, default priorities and the polyhedron after the round trip are covered by the correspondence and the oracle, not by a theorem; the theorems keep the hypotheses DistinctRT (All / StingyConfigurator, fails exactly on F16f) and two inequalities of generated ids (Imply / XNor). Findings F16a-F16e were found by this check and repaired (five fix: commits). KNOWN FINDING F16f (not repaired, known_findings.json): siblings that differ only in the sign argument as passed get different generated ids but equal JSON, collapse after the round trip and change the value of an enclosing All — found while extending the theorem to All; the check prints KNOWN-FINDING for it and still reports every other round-trip failure.",
+        note="PARTIAL at the theorem level: for configurators with rules other than defaulted choices over items, default priorities and the polyhedron after the round trip are covered by the correspondence and the oracle, not by a theorem; the theorems keep the hypotheses DistinctRT (All / StingyConfigurator, fails exactly on F16f) and two inequalities of generated ids (Imply / XNor). Findings F16a-F16e were found by this check and repaired (five fix: commits). KNOWN FINDING F16g (session 5, not repaired): a defaulted cc.Xor written through its negation (Imply condition, Not) has the generated id of its rebuilt 'at least one' half emitted by to_json. KNOWN FINDING F16f (not repaired, known_findings.json): siblings that differ only in the sign argument as passed get different generated ids but equal JSON, collapse after the round trip and change the value of an enclosing All — found while extending the theorem to All; the check prints KNOWN-FINDING for it and still reports every other round-trip failure.",
         technique="Lean 4 theorem (mutual induction over the fragment) + differential correspondence (both directions) + round-trip oracle",
         ref="§4 C16"),
     "C17": dict(
